@@ -22,7 +22,8 @@ ASSUMPTIONS = [
     "the axiom table (which metric claims which axiom on which domain class) is fixed in "
     "/verif/mc/oracles/axioms.py",
     "tolerances: symmetry 1e-9 relative, non-negativity 1e-12 absolute, zero-self 1e-9 absolute "
-    "(1e-7 for chord, whose final square root amplifies one ulp of the cosine), triangle 1e-9 relative",
+    "(1e-7 for chord, whose final square root amplifies one ulp of the cosine), triangle 1e-9 relative; "
+    "on the tolerance-ladder class T: non-negativity/zero-self 1e-8, triangle 1e-6 relative + 1e-9",
     "value grids only; lengths 1..3 (4 in thorough)",
 ]
 
@@ -52,13 +53,22 @@ def warm():
 
 def fill(fn, vs):
     n = len(vs)
-    arrs = [np.array(v, dtype=float) for v in vs]
+    d = len(vs[0])
     M = np.empty((n, n))
     err = None
+    # two caller-owned buffers, overwritten in place between calls; every third row uses
+    # fresh arrays instead, so both calling styles are exercised
+    bx, by = np.zeros(d), np.zeros(d)
     for i in range(n):
+        fresh = (i % 3 == 2)
+        bx[:] = vs[i]
         for j in range(n):
             try:
-                M[i, j] = fn(arrs[i].copy(), arrs[j].copy())
+                if fresh:
+                    M[i, j] = fn(np.array(vs[i], dtype=float), np.array(vs[j], dtype=float))
+                else:
+                    by[:] = vs[j]
+                    M[i, j] = fn(bx, by)
             except Exception as ex:
                 M[i, j] = np.nan
                 err = (i, j, repr(ex))
@@ -88,11 +98,12 @@ def judge(name, cl, mode, vs, M, err):
             out.append(("symmetric", int(i), int(j), None,
                         "d(x,y) = %r but d(y,x) = %r" % (float(M[i, j]), float(M[j, i]))))
     if r["dissimilarity"] and cl in r["dissimilarity_classes"]:
-        bad = np.argwhere(M < -1e-12)
+        # on the ladder (values up to 1e5) cancellation noise of log-type metrics reaches ~1e-9
+        bad = np.argwhere(M < (-1e-12 if cl != "T" else -1e-8))
         if len(bad):
             i, j = bad[0]
             out.append(("non-negative", int(i), int(j), None, "returned %r" % float(M[i, j])))
-        tol = 1e-7 if name == "chord" else 1e-9
+        tol = 1e-7 if name == "chord" else (1e-9 if cl != "T" else 1e-8)
         dg = np.abs(np.diag(M))
         bad = np.argwhere(dg > tol)
         if len(bad):
@@ -102,7 +113,10 @@ def judge(name, cl, mode, vs, M, err):
         n = len(vs)
         for j in range(n):
             rhs = (M[:, j][:, None] + M[j, :][None, :])
-            bad = np.argwhere(M > rhs * (1 + 1e-9) + 1e-12)
+            # ladder distances are ~1e-8 apart from 0: log(1 + d) style formulas carry an
+            # absolute rounding error of ~1e5 * eps there, hence the wider slack on class T
+            rel, ab = (1e-9, 1e-12) if cl != "T" else (1e-6, 1e-9)
+            bad = np.argwhere(M > rhs * (1 + rel) + ab)
             if len(bad):
                 i, k = bad[0]
                 out.append(("triangle", int(i), int(k), int(j),
